@@ -265,6 +265,9 @@ def relay_stages(cfg):
 def judge_relay(cfg, stage, how):
     c = dict(cfg)
     c.update(REL)
+    no_dt = c.pop('no_data_timeout', False)
+    if no_dt:
+        c['data_timeout'] = None          # not configured: the documented default is the command timeout
     if stage == 'connect':
         c['connect'] = 'stall'
         script = {}
@@ -272,7 +275,7 @@ def judge_relay(cfg, stage, how):
         c['unsolicited_partial'] = c['unsolicited_partial'].encode() if isinstance(c['unsolicited_partial'], str) else c['unsolicited_partial']
         script = {}
     else:
-        scope = 13.0 if stage.startswith('eod') else 11.0
+        scope = 13.0 if (stage.startswith('eod') and not no_dt) else 11.0
         frac = {'trickle': 0.9, 'trickle53': 0.53, 'trickle99': 0.99}.get(how, 0.9)
         script = {stage: 'stall' if how == 'stall' else ('trickle', frac * scope)}
         if stage == 'auth' and how == 'stall-after-334':
@@ -311,7 +314,7 @@ def judge_relay(cfg, stage, how):
     out = []
     if stage == 'connect':
         limit = 7.0
-    elif stage.startswith('eod'):
+    elif stage.startswith('eod') and not no_dt:
         limit = 13.0
     else:
         limit = 11.0
@@ -365,6 +368,14 @@ def relay_cases(tier):
                     yield cfg, st, 'trickle99'
         if cfg.get('auth'):
             yield cfg, 'auth', 'stall-after-334'
+    # only connect and command timeouts configured: the data phase falls back to the command timeout
+    for lmtp in (False, True):
+        for pl in (True, False):
+            cfg = dict(lmtp=lmtp, pipelining=pl, n=2, no_data_timeout=True)
+            for st in relay_stages(cfg):
+                if st in ('data',) or st.startswith('eod'):
+                    yield cfg, st, 'stall'
+                    yield cfg, st, 'trickle'
     # every recipient refused, DATA answered 354 all the same, then silence behind the lone dot the client has to send
     for pl in (True, False):
         yield dict(lmtp=False, pipelining=pl, n=2, refused_but_354=True), 'eod', 'stall'
